@@ -186,7 +186,7 @@ def worker(acc, shard, nshards, tier, seed, nonumpy):
                 plain_cache.clear()
             plain = plain_cache[key] = oracles.dtw_ref(case['s1'], case['s2'], inner_dist=INNERS[case.get('inner', 'sq')])
         acc.case(sub, nontrivial=(exp == inf or exp != plain))
-        if acc.states % 50021 == 1:
+        if not acc.samples or acc.states % 50021 == 1:
             acc.sample(case)
 
 
